@@ -269,7 +269,10 @@ def a_sites(led, rid, ctx):
         return None
 
     PLUMBING = {"next", "into_iter", "iter", "enumerate", "Some", "copied", "cloned", "deref", "as", "zip", "rev",
-                "usize", "u32", "u64", "i32", "i64", "isize", "const", "mut", "pointer"}
+                "usize", "u32", "u64", "i32", "i64", "isize", "const", "mut", "pointer",
+                # an accumulator written as a loop variable shows the accumulation inside the operand; the
+                # nested operation is a site of its own
+                "Add", "Sub"}
 
     def _tokens(k):
         import re
